@@ -4,3 +4,4 @@ import BlackIt.Properties.C17
 import BlackIt.Properties.C15
 import BlackIt.Properties.C12
 import BlackIt.Properties.C19
+import BlackIt.Properties.C13
